@@ -61,16 +61,25 @@ fn main() {
         std::process::exit(2);
     }
 
-    let def = match props::get(&id, &ctx) {
-        Some(d) => d,
-        None => {
-            eprintln!("unknown property {}", id);
+    // a panic that escapes the per-case guards is a fault of the harness itself: inconclusive
+    let rc = std::panic::catch_unwind(std::panic::AssertUnwindSafe(|| {
+        let def = match props::get(&id, &ctx) {
+            Some(d) => d,
+            None => {
+                eprintln!("unknown property {}", id);
+                return 2;
+            }
+        };
+        if let Some(path) = replay {
+            return rngs_verif::driver::replay(&ctx, def, &path);
+        }
+        rngs_verif::driver::run(&ctx, def)
+    }));
+    match rc {
+        Ok(rc) => std::process::exit(rc),
+        Err(_) => {
+            println!("INCONCLUSIVE: harness fault (panic outside a guarded case): {}", engine::take_last_panic().unwrap_or_default());
             std::process::exit(2);
         }
-    };
-
-    if let Some(path) = replay {
-        std::process::exit(rngs_verif::driver::replay(&ctx, def, &path));
     }
-    std::process::exit(rngs_verif::driver::run(&ctx, def));
 }
